@@ -5,7 +5,7 @@
 From Coq Require Import ZArith List Bool Lia String Permutation.
 From Model Require Import Tree Text Obj SourceInfo ObjBin ObjText.
 From Spec Require Import ObjEquiv.
-From Proofs Require Import Ranges ObjBytesProofs ObjBinProofs ObjTextLemmas.
+From Proofs Require Import Ranges ObjBytesProofs ObjBinProofs ObjTextLemmas SrcLinesProofs LineMapProofs ObjPipelineProofs.
 Import ListNotations.
 Open Scope Z_scope.
 Ltac Zify.zify_post_hook ::= Z.div_mod_to_equations.
@@ -392,4 +392,326 @@ Proof.
   - intros q Hq. split; [reflexivity|]. destruct q as [n [a s e]]; reflexivity.
   - intros p Hp. eapply Permutation_in; [apply Permutation_sym; apply sort_by_perm|].
     eapply Permutation_in; [apply sort_by_perm|exact Hp].
+Qed.
+
+(* ------------------------------------------------------------------------------------------ *)
+(* which lines are kept by the filter and stay inside their group *)
+Definition kept (l : str) : Prop := keep_line l = true /\ starts_with 46 l = false.
+Definition not_div (l : str) : Prop := starts_with 61 l = false.
+
+Lemma kept_first c r : is_ws c = false -> c <> 35 -> c <> 46 -> kept (c :: r).
+Proof.
+  intros Hw H1 H2. split.
+  - apply (keep_line_intro _ c); [left; reflexivity|exact Hw|]. cbn. apply Z.eqb_neq. exact H1.
+  - cbn. apply Z.eqb_neq. exact H2.
+Qed.
+Lemma digit_first_facts u c : is_digit_char u c = true -> is_ws c = false /\ c <> 35 /\ c <> 46 /\ c <> 61.
+Proof.
+  intro H. split; [eapply digit_not_ws; exact H|].
+  unfold is_digit_char in H. apply orb_true_iff in H. destruct H as [H|H]; [|destruct u]; btrue; lia.
+Qed.
+Lemma kept_digits_prefix u d ds r : is_digit_char u d = true -> kept ((d :: ds) ++ r) /\ not_div ((d :: ds) ++ r).
+Proof.
+  intro H. destruct (digit_first_facts u d H) as (H1 & H2 & H3 & H4). cbn [app]. split.
+  - apply kept_first; assumption.
+  - unfold not_div. cbn. apply Z.eqb_neq. exact H4.
+Qed.
+Lemma hex4_cons v : 0 <= v < 65536 -> exists d ds, hex4 v = d :: ds /\ is_digit_char true d = true.
+Proof.
+  intro H. destruct (hex4_props v H) as (_ & H2 & H3 & _). destruct (hex4 v) as [|d ds]; [discriminate|].
+  exists d, ds. split; [reflexivity|]. cbn [forallb] in H3. apply andb_true_iff in H3. apply H3.
+Qed.
+Lemma fmt_dec_cons n : 0 <= n -> exists d ds, fmt_dec n = d :: ds /\ is_digit_char false d = true.
+Proof.
+  intro H. destruct (fmt_radix_spec 10 false n ltac:(lia) H) as (H1 & H2 & _). unfold fmt_dec.
+  destruct (fmt_radix 10 false n) as [|d ds]; [contradiction|]. exists d, ds. split; [reflexivity|].
+  cbn [forallb] in H2. apply andb_true_iff in H2. apply H2.
+Qed.
+Lemma kept_spaces_digit u k d ds r : is_digit_char u d = true -> kept (repeat 32 k ++ (d :: ds) ++ r).
+Proof.
+  intro H. destruct (digit_first_facts u d H) as (H1 & H2 & H3 & H4). split.
+  - apply (keep_line_intro _ d); [apply in_or_app; right; left; reflexivity|exact H1|].
+    destruct k; cbn; [apply Z.eqb_neq; exact H2|reflexivity].
+  - destruct k; cbn; [apply Z.eqb_neq; exact H3|reflexivity].
+Qed.
+Lemma label_first l : label_text_ok l = true ->
+  exists c t, l = c :: t /\ is_ws c = false /\ c <> 35 /\ c <> 46 /\ c <> 61.
+Proof.
+  unfold label_text_ok. intro H. apply andb_true_iff in H. destruct H as [H1 H2]. destruct l as [|c t]; [discriminate|].
+  exists c, t. split; [reflexivity|]. apply negb_true_iff in H1. cbn [existsb] in H1. apply orb_false_iff in H1. destruct H1 as [H1 _].
+  apply negb_true_iff in H2. apply orb_false_iff in H2. destruct H2 as [H2 H4]. apply orb_false_iff in H2. destruct H2 as [H2 H3].
+  btrue. repeat split; assumption.
+Qed.
+
+Lemma body_ok_kept l : body_ok l -> kept l.
+Proof. intros (H1 & H2 & _). split; assumption. Qed.
+Lemma tblock_lines_kept b : block_inv b = true -> Forall kept (tblock_lines b).
+Proof.
+  unfold block_inv, in_u16. intro H. apply andb_true_iff in H. destruct H as [H Hws].
+  apply andb_true_iff in H. destruct H as [Ha Hlen]. btrue.
+  unfold tblock_lines. pose proof (len_nonneg (snd b)).
+  constructor; [apply body_ok_kept; apply (hex4_body_ok (fst b)); lia|].
+  constructor; [apply body_ok_kept; apply (fmt_dec_body_ok (len (snd b))); lia|].
+  apply Forall_forall. intros l Hl. apply in_map_iff in Hl. destruct Hl as [w [<- Hw]].
+  rewrite forallb_forall in Hws. specialize (Hws w Hw).
+  assert (Hwok : word_ok w) by (destruct w as [v|]; cbn; [unfold in_u16 in Hws; btrue; lia|exact Logic.I]).
+  apply body_ok_kept. apply tword_body_ok. exact Hwok.
+Qed.
+Lemma sym_row_kept p : sym_entry_ok p -> kept (sym_row p).
+Proof.
+  intros [Ha _]. unfold sym_row. destruct (hex4_cons _ Ha) as (d & ds & E & Hd). rewrite E.
+  apply (kept_digits_prefix true d ds _ Hd).
+Qed.
+Lemma rel_row_kept p : rel_entry_ok p -> kept (rel_row p).
+Proof.
+  intros [Ha _]. unfold rel_row. destruct (hex4_cons _ Ha) as (d & ds & E & Hd). rewrite E.
+  apply (kept_digits_prefix true d ds _ Hd).
+Qed.
+Lemma idx_row_kept lc ic p : idx_entry_ok p -> kept (idx_row lc ic p) /\ not_div (idx_row lc ic p).
+Proof.
+  intros [_ Hl]. unfold idx_row. destruct (pad_right_form 32 lc (fst p)) as [k E]. rewrite E.
+  destruct (label_first _ Hl) as (c & t & E2 & H1 & H2 & H3 & H4). rewrite E2. cbn [app]. split.
+  - apply kept_first; assumption.
+  - unfold not_div. cbn. apply Z.eqb_neq. exact H4.
+Qed.
+Lemma idx_header_kept lc ic : kept (pad_right 32 lc LABEL ++ TABLE_DIV ++ pad_right 32 ic INDEX)
+                              /\ not_div (pad_right 32 lc LABEL ++ TABLE_DIV ++ pad_right 32 ic INDEX).
+Proof.
+  destruct (pad_right_form 32 lc LABEL) as [k E]. rewrite E. change LABEL with (76 :: [65; 66; 69; 76]). cbn [app]. split.
+  - apply kept_first; [reflexivity|lia|lia].
+  - reflexivity.
+Qed.
+Lemma line_header_kept lc : kept (pad_right 32 lc LINE ++ TABLE_DIV ++ s2z "ADDR" ++ TABLE_DIV ++ s2z "SOURCE").
+Proof.
+  destruct (pad_right_form 32 lc LINE) as [k E]. rewrite E. change LINE with (76 :: [73; 78; 69]). cbn [app].
+  apply kept_first; [reflexivity|lia|lia].
+Qed.
+Lemma line_row_kept src lc k m : 0 <= k -> kept (line_row src lc (k, m)).
+Proof.
+  intro Hk. unfold line_row. cbn [fst snd]. destruct (pad_left_form 32 lc (fmt_dec k)) as [j E]. rewrite E.
+  destruct (fmt_dec_cons k Hk) as (d & ds & E2 & Hd). rewrite E2. rewrite <- app_assoc.
+  apply (kept_spaces_digit false j d ds _ Hd).
+Qed.
+
+Lemma filter_kept ls : Forall kept ls -> filter keep_line ls = ls.
+Proof.
+  induction 1 as [|l ls [Hk _] _ IH]; [reflexivity|]. cbn [filter]. rewrite Hk, IH. reflexivity.
+Qed.
+Lemma kept_not_dot ls : Forall kept ls -> Forall (fun l => starts_with 46 l = false) ls.
+Proof. intro H. eapply Forall_impl; [|exact H]. intros l [_ Hd]. exact Hd. Qed.
+
+(* ------------------------------------------------------------------------------------------ *)
+(* the four groups *)
+Lemma text_group_nil fuel blocks : text_group fuel [] blocks = ROk blocks.
+Proof. destruct fuel; reflexivity. Qed.
+
+Lemma grp_text blocks ls rs dbg : forallb block_inv blocks = true -> strictly_sorted (map fst blocks) = true ->
+  group (s2z ".TEXT") (flat_map tblock_lines blocks) (mkT [] ls rs dbg) = ROk (mkT blocks ls rs dbg).
+Proof.
+  intros Hi Hs. unfold group. change (str_eqb (s2z ".TEXT") (s2z ".TEXT")) with true. cbn iota. cbn [t_blocks t_labels t_rel t_dbg].
+  destruct (text_group_ser blocks [] (List.length (flat_map tblock_lines blocks)) [] Hi Hs) as (f' & _ & E).
+  { rewrite app_nil_r. lia. }
+  rewrite app_nil_r in E. rewrite E, text_group_nil. reflexivity.
+Qed.
+
+Lemma Forall_perm {A} (P : A -> Prop) l l' : Permutation l l' -> Forall P l -> Forall P l'.
+Proof. intros Hp H. apply Forall_forall. intros x Hx. rewrite Forall_forall in H. apply H. eapply Permutation_in; [apply Permutation_sym; exact Hp|exact Hx]. Qed.
+Lemma sort_by_nil_iff {A} (lt : A -> A -> bool) l : sort_by lt l = [] <-> l = [].
+Proof.
+  split; intro H; [|subst; reflexivity]. pose proof (sort_by_perm lt l) as P. rewrite H in P.
+  apply Permutation_nil in P. exact P.
+Qed.
+
+Definition sym_table_lines (labels : list (str * symdata)) : list str :=
+  match labels with [] => [] | _ => s2z "ADDR | EXT | LABEL" :: map sym_row (sort_by sym_lt labels) end.
+Definition rel_table_lines (rel : list (Z * str)) : list str :=
+  match rel with [] => [] | _ => s2z "ADDR | LABEL" :: map rel_row (sort_by rel_lt rel) end.
+
+Lemma grp_symbol labels b r d : Forall sym_entry_ok labels -> NoDup (map fst labels) ->
+  group (s2z ".SYMBOL") (sym_table_lines labels) (mkT b [] r d)
+  = ROk (mkT b (map strip_src (sort_by sym_lt labels)) r d).
+Proof.
+  intros Hok Hnd. unfold group. change (str_eqb (s2z ".SYMBOL") (s2z ".TEXT")) with false.
+  change (str_eqb (s2z ".SYMBOL") (s2z ".SYMBOL")) with true. cbn iota. cbn [t_blocks t_labels t_rel t_dbg].
+  unfold sym_table_lines. destruct labels as [|p0 labels0] eqn:El; [reflexivity|]. rewrite <- El in *.
+  rewrite sym_table_parse by (eapply Forall_perm; [apply Permutation_sym; apply sort_by_perm|exact Hok]).
+  rewrite (fold_sym_update (sort_by sym_lt labels) []).
+  - reflexivity.
+  - cbn [app]. eapply Permutation_NoDup; [|exact Hnd]. apply Permutation_map. apply Permutation_sym. apply sort_by_perm.
+Qed.
+
+Lemma grp_linker rel b l d : Forall rel_entry_ok rel -> NoDup (map fst rel) ->
+  group (s2z ".LINKER_INFO") (rel_table_lines rel) (mkT b l [] d) = ROk (mkT b l (sort_by rel_lt rel) d).
+Proof.
+  intros Hok Hnd. unfold group. change (str_eqb (s2z ".LINKER_INFO") (s2z ".TEXT")) with false.
+  change (str_eqb (s2z ".LINKER_INFO") (s2z ".SYMBOL")) with false.
+  change (str_eqb (s2z ".LINKER_INFO") (s2z ".LINKER_INFO")) with true. cbn iota. cbn [t_blocks t_labels t_rel t_dbg].
+  unfold rel_table_lines. destruct rel as [|p0 rel0] eqn:El; [reflexivity|]. rewrite <- El in *.
+  rewrite rel_table_parse by (eapply Forall_perm; [apply Permutation_sym; apply sort_by_perm|exact Hok]).
+  rewrite (fold_hm_nodup Z.eqb Zeqb_iff (sort_by rel_lt rel) []).
+  - reflexivity.
+  - cbn [app]. eapply Permutation_NoDup; [|exact Hnd]. apply Permutation_map. apply Permutation_sym. apply sort_by_perm.
+Qed.
+
+(* .DEBUG *)
+Lemma break_div_app ls : forall d rest, Forall not_div ls -> starts_with 61 d = true ->
+  break_div (ls ++ d :: rest) = Some (ls, d :: rest).
+Proof.
+  induction ls as [|l ls IH]; intros d rest H Hd.
+  - cbn [app break_div]. rewrite Hd. reflexivity.
+  - inversion H as [|? ? Hl H']; subst. cbn [app break_div]. unfold not_div in Hl. rewrite Hl. rewrite IH by assumption. reflexivity.
+Qed.
+Lemma last_app_one {A} (l : list A) x d : last (l ++ [x]) d = x.
+Proof. apply last_last. Qed.
+
+Lemma map_fst_combine {A B} (l : list A) : forall (l' : list B), List.length l = List.length l' -> map fst (combine l l') = l.
+Proof. induction l as [|x l IH]; intros [|y l'] H; try discriminate; [reflexivity|]. cbn [combine map fst]. rewrite IH by (cbn in H; lia). reflexivity. Qed.
+Lemma flat_map_snd_combine {A B} (l : list A) : forall (l' : list (list B)), List.length l = List.length l' ->
+  flat_map snd (combine l l') = List.concat l'.
+Proof. induction l as [|x l IH]; intros [|y l'] H; try discriminate; [reflexivity|]. cbn [combine flat_map snd List.concat]. rewrite IH by (cbn in H; lia). reflexivity. Qed.
+Lemma concat_map_flat_map {A B} (f : A -> list B) l : List.concat (map f l) = flat_map f l.
+Proof. induction l as [|x l IH]; [reflexivity|]. cbn [map List.concat flat_map]. rewrite IH. reflexivity. Qed.
+Lemma escape_app a b : escape (a ++ b) = escape a ++ escape b.
+Proof. unfold escape. apply flat_map_app. Qed.
+Lemma escape_flat_map {A} (g : A -> str) l : flat_map (fun x => escape (g x)) l = escape (flat_map g l).
+Proof. induction l as [|x l IH]; [reflexivity|]. cbn [flat_map]. rewrite escape_app, IH. reflexivity. Qed.
+Lemma seqz_length i n : List.length (seqz i n) = n.
+Proof. revert i. induction n as [|n IH]; intro i; [reflexivity|]. cbn [seqz List.length]. rewrite IH. reflexivity. Qed.
+
+(* what text_inv gives about the debug symbols *)
+Lemma runs_in_of_inv runs n : forallb run_inv runs = true -> runs_separated runs = true ->
+  forallb (fun p : Z * list Z => negb (match snd p with [] => true | _ => false end) && (fst p + len (snd p) <? n)) runs = true ->
+  forall cur, (match runs with [] => cur <= n | (l, _) :: _ => cur <= l end) -> runs_in cur runs n.
+Proof.
+  induction runs as [|[l a] r IH]; intros Hi Hs Hb cur Hc; [exact Hc|].
+  apply forallb_cons_iff in Hi. destruct Hi as [_ Hi]. apply forallb_cons_iff in Hb. destruct Hb as [Hb0 Hb].
+  cbn [fst snd] in Hb0. apply andb_true_iff in Hb0. destruct Hb0 as [Hne Hlt]. apply Z.ltb_lt in Hlt.
+  cbn [runs_in]. split; [exact Hc|]. split; [destruct a; [discriminate|discriminate]|].
+  destruct r as [|[l' a'] r'].
+  - cbn [runs_in]. lia.
+  - change (runs_separated ((l, a) :: (l', a') :: r')) with ((l + len a <? l') && runs_separated ((l', a') :: r')) in Hs.
+    apply andb_true_iff in Hs. destruct Hs as [Hs0 Hs]. apply Z.ltb_lt in Hs0.
+    apply IH; [exact Hi|exact Hs|exact Hb|lia].
+Qed.
+Lemma separated_disjoint runs : runs_separated runs = true -> runs_disjoint runs = true.
+Proof.
+  induction runs as [|[l a] r IH]; [reflexivity|]. destruct r as [|[l' a'] r']; [reflexivity|]. intro H.
+  change (runs_separated ((l, a) :: (l', a') :: r')) with ((l + len a <? l') && runs_separated ((l', a') :: r')) in H.
+  apply andb_true_iff in H. destruct H as [H0 H]. apply Z.ltb_lt in H0.
+  change (runs_disjoint ((l, a) :: (l', a') :: r')) with ((l + len a <=? l') && runs_disjoint ((l', a') :: r')).
+  apply andb_true_iff. split; [apply Z.leb_le; lia|apply IH; exact H].
+Qed.
+Lemma vec_word_ok runs : forall cur n, forallb run_inv runs = true -> Forall word_ok (vec cur runs n).
+Proof.
+  induction runs as [|[l a] r IH]; intros cur n H; cbn [vec].
+  - apply Forall_forall. intros x Hx. apply repeat_spec in Hx. subst. exact Logic.I.
+  - apply forallb_cons_iff in H. destruct H as [Hr H]. apply Forall_app. split.
+    + apply Forall_forall. intros x Hx. apply repeat_spec in Hx. subst. exact Logic.I.
+    + apply Forall_app. split; [|apply IH; exact H].
+      apply Forall_forall. intros x Hx. apply in_map_iff in Hx. destruct Hx as [v [<- Hv]].
+      unfold run_inv in Hr. cbn [fst snd] in Hr. apply andb_true_iff in Hr. destruct Hr as [Hr _].
+      apply andb_true_iff in Hr. destruct Hr as [_ Hr]. rewrite forallb_forall in Hr. specialize (Hr v Hv).
+      unfold in_u16 in Hr. btrue. cbn. lia.
+Qed.
+
+Definition debug_lines (dbg : option debug_symbols) : list str :=
+  match dbg with Some d => line_table_lines d ++ [DIVIDER] | None => [] end.
+
+Lemma line_table_eq d : debug_inv d = true -> debug_text_inv d = true ->
+  line_table d = tbl 0 (vec 0 (ds_lines d) (count_lines (ds_src d)))
+  /\ runs_in 0 (ds_lines d) (count_lines (ds_src d))
+  /\ List.length (vec 0 (ds_lines d) (count_lines (ds_src d))) = List.length (nl_indices (ds_src d)).
+Proof.
+  unfold debug_inv, debug_text_inv. intros Hi Ht.
+  apply andb_true_iff in Hi. destruct Hi as [Hi Hlen]. apply andb_true_iff in Hi. destruct Hi as [Hi Hval].
+  apply andb_true_iff in Hi. destruct Hi as [Hi Hdis]. apply andb_true_iff in Hi. destruct Hi as [Hruns Hsort].
+  apply andb_true_iff in Ht. destruct Ht as [Hsep Hbnd]. apply Z.leb_le in Hlen.
+  set (n := count_lines (ds_src d)).
+  assert (Hn1 : 1 <= n).
+  { unfold n, count_lines, nl_indices. destruct (ds_src d) as [|c s]; cbn [nl_from]; [cbn; lia|].
+    destruct (c =? 10); [cbn [List.length]; lia|]. destruct (nl_from_head s (0 + utf8_len c)) as (x & l & E & _). rewrite E. cbn [List.length]. lia. }
+  assert (Hrin : runs_in 0 (ds_lines d) n).
+  { apply runs_in_of_inv; try assumption. destruct (ds_lines d) as [|[l a] r] eqn:E; [lia|].
+    apply forallb_cons_iff in Hruns. destruct Hruns as [Hr _]. unfold run_inv in Hr. cbn [fst snd] in Hr. btrue. lia. }
+  assert (Hnb : n <= 18446744073709551616).
+  { pose proof (count_lines_bound (ds_src d)). unfold n, ISIZE_MAX in *. lia. }
+  split; [|split; [exact Hrin|]].
+  - unfold line_table. rewrite tbl_base.
+    pose proof (line_table_vec (ds_lines d) 0 [] n Hrin ltac:(lia) Hnb ltac:(constructor)) as E. cbn [app] in E.
+    replace (Z.to_nat (n - 0)) with (List.length (nl_indices (ds_src d))) in E by (unfold n, count_lines; lia).
+    exact E.
+  - pose proof (length_vec (ds_lines d) 0 n Hrin) as E. unfold len, n, count_lines in E. unfold n, count_lines. lia.
+Qed.
+
+Lemma line_src_of (LT : list str) dv :
+  match LT ++ [dv] with [] => [] | _ :: _ => removelast (LT ++ [dv]) end = LT.
+Proof. destruct (LT ++ [dv]) eqn:E; [destruct LT; discriminate|]. rewrite <- E. apply removelast_last. Qed.
+
+Lemma grp_debug labels dbg b r :
+  Forall idx_entry_ok labels -> NoDup (map fst labels) ->
+  (forall d, dbg = Some d -> debug_inv d = true /\ debug_text_inv d = true) ->
+  group (s2z ".DEBUG") (label_table_lines labels ++ [DIVIDER] ++ debug_lines dbg)
+        (mkT b (map strip_src (sort_by sym_lt labels)) r None)
+  = ROk (mkT b (sort_by sym_lt labels) r
+             (match dbg with
+              | Some d => Some (vec 0 (ds_lines d) (count_lines (ds_src d)), ds_src d)
+              | None => None
+              end)).
+Proof.
+  intros Hok Hnd Hdbg. unfold group.
+  change (str_eqb (s2z ".DEBUG") (s2z ".TEXT")) with false. change (str_eqb (s2z ".DEBUG") (s2z ".SYMBOL")) with false.
+  change (str_eqb (s2z ".DEBUG") (s2z ".LINKER_INFO")) with false. change (str_eqb (s2z ".DEBUG") (s2z ".DEBUG")) with true. cbn iota.
+  set (LB := label_table_lines labels).
+  assert (HLB : Forall not_div LB).
+  { unfold LB, label_table_lines. destruct labels as [|p0 l0] eqn:El; [constructor|]. rewrite <- El in *.
+    constructor; [apply idx_header_kept|]. apply Forall_forall. intros l Hl. apply in_map_iff in Hl. destruct Hl as [p [<- Hp]].
+    apply idx_row_kept. rewrite Forall_forall in Hok. apply Hok.
+    eapply Permutation_in; [apply sort_by_perm|exact Hp]. }
+  unfold debug_group.
+  destruct (LB ++ [DIVIDER] ++ debug_lines dbg) as [|r0 rs] eqn:Erest; [destruct LB; discriminate|]. rewrite <- Erest.
+  cbn [app] in *. rewrite (break_div_app LB DIVIDER (debug_lines dbg) HLB eq_refl).
+  assert (Hlast : starts_with 61 (last (LB ++ DIVIDER :: debug_lines dbg) []) = true).
+  { destruct dbg as [d|]; cbn [debug_lines].
+    - replace (LB ++ DIVIDER :: line_table_lines d ++ [DIVIDER]) with ((LB ++ DIVIDER :: line_table_lines d) ++ [DIVIDER])
+        by (rewrite <- app_assoc; reflexivity).
+      rewrite last_app_one. reflexivity.
+    - change (LB ++ [DIVIDER]) with (LB ++ [DIVIDER]). rewrite last_app_one. reflexivity. }
+  rewrite Hlast. cbn [negb].
+  (* the label table *)
+  assert (Hlbl : exists ltab, parse_table LB [LABEL; INDEX] idx_rowp true = Some ltab /\
+            fold_left (fun m p => hm_update (fst p) (fun d => mkSym (sd_addr d) (snd p) (sd_external d)) m) ltab
+                      (map strip_src (sort_by sym_lt labels)) = sort_by sym_lt labels).
+  { unfold LB, label_table_lines. destruct labels as [|p0 l0] eqn:El.
+    - exists []. split; reflexivity.
+    - rewrite <- El in *. eexists. split.
+      + apply idx_table_parse. eapply Forall_perm; [apply Permutation_sym; apply sort_by_perm|exact Hok].
+      + apply label_table_roundtrip. exact Hnd. }
+  destruct Hlbl as (ltab & E1 & E2). rewrite E1. cbn [t_labels t_blocks t_rel t_dbg]. rewrite E2.
+  destruct dbg as [d|]; cbn [debug_lines].
+  - destruct (Hdbg d eq_refl) as [Hdi Hdt]. destruct (line_table_eq d Hdi Hdt) as (Et & Hrin & Elen).
+    unfold line_table_lines. rewrite Et.
+    set (ms := vec 0 (ds_lines d) (count_lines (ds_src d))) in *.
+    assert (Hms : ms <> []) by (intro E; rewrite E in Elen; cbn in Elen; unfold nl_indices in Elen; destruct (nl_from_head (ds_src d) 0) as (x & l & E' & _); rewrite E' in Elen; discriminate).
+    destruct (tbl 0 ms) as [|t0 ts] eqn:Etbl; [destruct ms; [contradiction|discriminate]|]. rewrite <- Etbl.
+    rewrite line_src_of.
+    set (lc := Z.max (len LINE) (count_digits (fst (last (tbl 0 ms) (0, None))))).
+    unfold parse_table. rewrite line_header_parse. cbn [List.length].
+    unfold tbl. rewrite line_rows_parse.
+    2:{ lia. }
+    2:{ pose proof (length_vec (ds_lines d) 0 (count_lines (ds_src d)) Hrin) as E. fold ms in E. rewrite E.
+        pose proof (count_lines_bound (ds_src d)). unfold debug_inv in Hdi. btrue. unfold USIZE_MAX, ISIZE_MAX in *. lia. }
+    2:{ apply vec_word_ok. unfold debug_inv in Hdi. btrue. assumption. }
+    destruct (combine ms _) as [|row rows] eqn:Ec.
+    { exfalso. destruct ms; [contradiction|]. cbn [List.length seqz map combine] in Ec. discriminate. }
+    cbv beta iota. rewrite <- Ec. cbn [app].
+    pose proof (flat_map_snd_combine ms (map (fun k : Z => escape (src_line (ds_src d) k)) (seqz 0 (Datatypes.length ms)))
+                  ltac:(rewrite map_length, seqz_length; reflexivity)) as X.
+    unfold str in *. rewrite X. clear X.
+    pose proof (map_fst_combine ms (map (fun k : Z => escape (src_line (ds_src d) k)) (seqz 0 (Datatypes.length ms)))
+                  ltac:(rewrite map_length, seqz_length; reflexivity)) as X.
+    unfold str in *. rewrite X. clear X.
+    rewrite concat_map_flat_map, escape_flat_map. rewrite Elen. rewrite src_lines_concat.
+    rewrite unescape_escape by (unfold debug_inv in Hdi; btrue; assumption).
+    reflexivity.
+  - reflexivity.
 Qed.
